@@ -93,6 +93,12 @@ class Stats(object):
         self.notes = []
         self.monitor_evals = 0  # times the deciding oracle actually compared something
         self.coverage = None
+        self.tagsets = {}       # name -> set of short strings (distinct things seen, unioned across shards)
+
+    def tag(self, name, value):
+        s = self.tagsets.setdefault(name, set())
+        if len(s) < 20000:
+            s.add(str(value))
 
     def count(self, name, n=1):
         self.counters[name] = self.counters.get(name, 0) + n
@@ -121,7 +127,8 @@ class Stats(object):
         return {'evaluations': self.evaluations, 'distinct': sorted(self.distinct),
                 'counters': self.counters, 'maxima': self.maxima, 'samples': self.samples,
                 'violations': self.violations, 'notes': self.notes,
-                'monitor_evals': self.monitor_evals, 'coverage': self.coverage}
+                'monitor_evals': self.monitor_evals, 'coverage': self.coverage,
+                'tagsets': {k: sorted(v) for k, v in self.tagsets.items()}}
 
     def merge_json(self, d):
         self.evaluations += d['evaluations']
@@ -144,6 +151,8 @@ class Stats(object):
             if n not in self.notes:
                 self.notes.append(n)
         self.monitor_evals += d['monitor_evals']
+        for k, v in d.get('tagsets', {}).items():
+            self.tagsets.setdefault(k, set()).update(v)
         c = d.get('coverage')
         if c:
             if self.coverage is None:
